@@ -149,11 +149,12 @@ Definition chk_match_next (c : list bytes * bytes * bytes * bool * obs) : bool :
   | _, _ => false
   end.
 
-Definition chk_export_openssh_public (c : bytes * bytes * option bytes * bytes) : bool :=
-  let '(alg, blob, cm, got) := c in zlist_eqb (export_openssh_public alg blob cm) got.
+(* observed: the exported text, or None when export raised KeyExportError *)
+Definition chk_export_openssh_public (c : bytes * bytes * option bytes * option bytes) : bool :=
+  let '(alg, blob, cm, got) := c in option_eqb zlist_eqb (export_openssh_public alg blob cm) got.
 
-Definition chk_export_rfc4716 (c : bytes * option bytes * bytes) : bool :=
-  let '(blob, cm, got) := c in zlist_eqb (export_rfc4716 blob cm) got.
+Definition chk_export_rfc4716 (c : bytes * option bytes * option bytes) : bool :=
+  let '(blob, cm, got) := c in option_eqb zlist_eqb (export_rfc4716 blob cm) got.
 
 (* ------------------------------------------------------------------------------------------- *)
 (* openssh-key-v1 container with the real field layout of the non-SK key types: the private section
